@@ -33,6 +33,8 @@ func checkC09(c *Ctx) {
 	c.Rule("C09.R1", "the ellipsoid, datum, prime-meridian and unit tables and the named numeric constants of package proj equal the bundled proj4js 2.3.12 source (same keys; numbers equal as float64; towgs84 element-wise)")
 	c.Rule("C09.R2", "no constant division of two integer constants with a non-integer quotient is used in a floating-point expression (it would be evaluated as integer division)")
 	c.Rule("C09.R3", "in the PROJ.4 string parser every parameter that proj4js multiplies by D2R ends up multiplied by deg2rad exactly once on every path of its case, and no other numeric parameter is")
+	c.Rule("C09.R6", "7-parameter datum shift: on every path the three output ordinates are computed simultaneously from the same inputs (no output is an operand of another); each output is +1·own ordinate ± p[3+k]·other ordinate (k the third axis) with an antisymmetric coupling matrix, translated by p[axis]; the inverse shift uses the transposed matrix, the opposite translation sign and divides by the scale the forward one multiplies by")
+	c.Rule("C09.R7", "eccentricity arguments: with SR.E : e, SR.Es : e², sqrt(e²) : e, e·e : e², 1−(B/A)² : e², every helper parameter receives the same one of the two at all typed call sites")
 	c.Rule("C09.R4", "a coordinate produced by one datum shift (which yields a height) is not narrowed to a 2-argument Transformer result and fed to a second datum shift within one transformation")
 	p := c.P.Pkg("proj")
 	if p == nil {
@@ -46,6 +48,10 @@ func checkC09(c *Ctx) {
 	a.angleUnits()
 	a.twoDHop()
 	c.exhaust = true
+	a.helmert()
+	a.eccentricity()
+	c.Floor("C09.R7", 8)
+	c.Floor("C09.R6", 8)
 	c.Floor("C09.R1", 70)
 	c.Floor("C09.R2", 1)
 	c.Floor("C09.R3", 12)
